@@ -6,8 +6,15 @@
      fn 1: reply   [tree; VN mode; VL pats]            -> VL [VL [error...]; VN ok; outcome]
                     RPCReply.errors / .ok and the decision of RPC._request for a handler whose exempt list is pats
      fn 2: exempt  [VL pats; opt msg]                   -> VN b       (constructor classification + is_rpc_error_exempt)
-     fn 3: connect [VL profile; opt (VL user); opt (VN mode); tree] -> outcome   (connect-style plumbing)            *)
-From NC Require Import Model.Base Model.RpcErrors.
+     fn 3: connect [VL profile; opt (VL user); opt (VN mode); tree] -> outcome   (connect-style plumbing)
+     fn 4: history [VL [VL [VB name; VL pats]...]; pool; VL [step...]] -> VL [pool; VL [conn...]]
+                    pool = VL [VL [VN id; VL [VL [VB key; pval]...]]...]
+                    pval = VL [VN 0; VN n] | VL [VN 1; VB s] | VL [VN 2; VL strs] | VL [VN 3; VN classid; VL pats] | VL [VN 4]
+                         | VL [VN 5; VB repr]
+                    step = VL [VN route; opt dp; opt mp; opt np; opt ep; opt timeout; VN fail]     (opt = VL [] | VL [VN i])
+                    conn = VL [VN 0; VL pats; VN mode; VN timeout] | VL [VN 1] refused | VL [VN 2] no such profile
+                         | VL [VN 3] raise_mode given twice                                                            *)
+From NC Require Import Model.Base Model.RpcErrors Model.ConnectHistory.
 
 Definition unVB (v : val) : bytes := match v with VB b => b | _ => [] end.
 Definition unVBs (v : val) : list bytes := match v with VL l => map unVB l | _ => [] end.
@@ -32,6 +39,47 @@ Definition enc_outcome (o : outcome) : val :=
   | RaiseAggregate es => VL [VN 2; VL (map enc_err es); VB (agg_message es); VB (agg_severity es)]
   end.
 
+Definition dec_pval (v : val) : pval :=
+  match v with
+  | VL [VN 0; VN n] => PNum n
+  | VL [VN 1; VB s] => PStr s
+  | VL [VN 2; l] => PStrs (unVBs l)
+  | VL [VN 3; VN id; l] => PHandler id (unVBs l)
+  | VL [VN 4] => PNone
+  | VL [VN 5; VB r] => POther r
+  | _ => POther []
+  end.
+Definition enc_pval (x : pval) : val :=
+  match x with
+  | PNum n => VL [VN 0; VN n]
+  | PStr s => VL [VN 1; VB s]
+  | PStrs l => VL [VN 2; VL (map VB l)]
+  | PHandler id l => VL [VN 3; VN id; VL (map VB l)]
+  | PNone => VL [VN 4]
+  | POther r => VL [VN 5; VB r]
+  end.
+Definition dec_item (v : val) : bytes * pval := match v with VL [VB k; x] => (k, dec_pval x) | _ => ([], PNone) end.
+Definition dec_pdict (v : val) : pdict := match v with VL l => map dec_item l | _ => [] end.
+Definition dec_obj (v : val) : N * pdict := match v with VL [VN i; d] => (i, dec_pdict d) | _ => (0, []) end.
+Definition dec_pool (v : val) : pool := match v with VL l => map dec_obj l | _ => [] end.
+Definition enc_pool (p : pool) : val :=
+  VL (map (fun o => VL [VN (fst o); VL (map (fun kv => VL [VB (fst kv); enc_pval (snd kv)]) (snd o))]) p).
+Definition dec_optn (v : val) : option N := match v with VL [VN i] => Some i | _ => None end.
+Definition dec_step (v : val) : step :=
+  match v with
+  | VL [VN r; dp; mp; np; ep; t; VN f] =>
+      mkStep r (dec_optn dp) (dec_optn mp) (dec_optn np) (dec_optn ep) (dec_optn t) (negb (N.eqb f 0))
+  | _ => mkStep 0 None None None None None false
+  end.
+Definition dec_profile (v : val) : bytes * list bytes := match v with VL [VB n; l] => (n, unVBs l) | _ => ([], []) end.
+Definition enc_conn (c : conn) : val :=
+  match c with
+  | Connected m => VL [VN 0; VL (map VB (m_pats m)); VN (m_mode m); VN (m_timeout m)]
+  | ConnectRaised => VL [VN 1]
+  | NoProfile => VL [VN 2]
+  | BadCall => VL [VN 3]
+  end.
+
 Definition run (v : val) : val :=
   match v with
   | VL [VN 1; tree; VN mode; pats] =>
@@ -43,5 +91,8 @@ Definition run (v : val) : val :=
       let u := match user with VL [l] => Some (unVBs l) | _ => None end in
       let m := match mode with VL [VN m] => Some m | _ => None end in
       enc_outcome (call_outcome (unVBs profile) u m (dec_node tree))
+  | VL [VN 4; VL profiles; pl; VL steps] =>
+      let (p', cs) := run_history (map dec_profile profiles) (dec_pool pl) (map dec_step steps) in
+      VL [enc_pool p'; VL (map enc_conn cs)]
   | _ => verr 1
   end.
